@@ -18,7 +18,7 @@ REPO = os.environ.get("VERIF_REPO", "/repo")
 MODULE = "github.com/0xReLogic/Helios"
 SPEC = os.path.join(VERIF, "spec")
 HARNESS = os.path.join(VERIF, "harness")
-EVIDENCE = os.path.join(VERIF, "evidence")
+EVIDENCE = os.environ.get("VERIF_EVIDENCE", os.path.join(VERIF, "evidence"))
 NCPU = os.cpu_count() or 4
 
 GOENV = dict(os.environ, GOFLAGS="-mod=mod", GOPROXY="off", GOSUMDB="off",
@@ -230,6 +230,32 @@ def walks(r, max_len=300):
     res = read_ndjson(outp)
     shutil.rmtree(sd, ignore_errors=True)
     return res, stats
+
+
+def run_chunked(binp, scripts, sd, name, chunk=400, par=8, timeout=1800, extra=()):
+    """Run a script-replay harness over `scripts` in several processes (objects under test leak their
+    background tickers, which slows virtual time down when thousands accumulate in one process).
+    Returns the path of the concatenated trace (script order preserved)."""
+    from concurrent.futures import ThreadPoolExecutor
+    parts = [scripts[i:i + chunk] for i in range(0, len(scripts), chunk)] or [[]]
+
+    def one(k):
+        sp = os.path.join(sd, "%s.%d.scripts.ndjson" % (name, k))
+        tp = os.path.join(sd, "%s.%d.trace.ndjson" % (name, k))
+        write_ndjson(sp, parts[k])
+        run([binp, sp, tp] + list(extra), timeout=timeout)
+        if not os.path.exists(tp + ".ok"):
+            raise FrameworkError("harness did not finish (%s part %d)" % (name, k))
+        return tp
+    with ThreadPoolExecutor(max_workers=par) as ex:
+        tps = list(ex.map(one, range(len(parts))))
+    out = os.path.join(sd, name + ".trace.ndjson")
+    with open(out, "w") as fo:
+        for tp in tps:
+            with open(tp) as fi:
+                shutil.copyfileobj(fi, fo)
+            os.remove(tp)
+    return out
 
 
 def write_ndjson(path, events):
